@@ -906,13 +906,11 @@ func runReadOnly(r *h.Run, sc scenario) {
 		if n.Dir && emptyDir == "" && len(childrenOf(sc.Tree, n.Rel)) == 0 {
 			emptyDir = "/" + n.Rel
 		}
-		if n.Dir && nonEmptyDir == "" && len(childrenOf(sc.Tree, n.Rel)) > 0 {
-			nonEmptyDir = "/" + n.Rel
-		}
-		if n.Dir && dir == "" { // a directory with a file somewhere below it: removing it must be refused
+		if n.Dir && dir == "" { // a directory with a file somewhere below it: removing / emptying it must be refused
 			for _, m := range sc.Tree {
 				if !m.Dir && strings.HasPrefix(m.Rel, n.Rel+"/") {
 					dir = "/" + n.Rel
+					nonEmptyDir = dir // (a directory holding only empty directories falls under the known finding Rm-empty-dir)
 					break
 				}
 			}
@@ -1530,6 +1528,25 @@ func genRaw(rg *rand.Rand) []rawEntry {
 	return es
 }
 
+// rawConflict: two entries whose cleaned paths are equal or nested (a file used as a directory, an entry repeated, ...)
+func rawConflict(es []rawEntry) bool {
+	var ps []string
+	for _, e := range es {
+		ps = append(ps, filepath.Clean("/"+e.Name))
+	}
+	for i := range ps {
+		if ps[i] == "/" && !strings.HasSuffix(es[i].Name, "/") {
+			return true // a FILE entry that resolves to the destination itself
+		}
+		for j := range ps {
+			if i != j && (ps[i] == ps[j] || strings.HasPrefix(ps[j], ps[i]+"/")) && !strings.HasSuffix(es[i].Name, "/") {
+				return true
+			}
+		}
+	}
+	return false
+}
+
 func smallEnough(tree []nodeSpec, maxEntries int, maxBytes int64) bool {
 	_, total, _, _ := treeStats(tree)
 	return len(tree) <= maxEntries && total <= maxBytes
@@ -1677,7 +1694,12 @@ func main() {
 	}
 	nRaw := r.N(40, 600)
 	for i := 0; i < nRaw; i++ {
-		runScenario(r, scenario{Kind: "raw", Backend: []string{"os", "mem"}[rg.Intn(2)], Raw: genRaw(rg)}, i < r.N(40, 300))
+		es := genRaw(rg)
+		be := []string{"os", "mem"}[rg.Intn(2)]
+		if rawConflict(es) {
+			be = "os" // afero's MemMapFs happily creates a file below a file; only the OS semantics is modelled for such archives
+		}
+		runScenario(r, scenario{Kind: "raw", Backend: be, Raw: es}, i < r.N(40, 300))
 	}
 	r.Finish()
 	_ = os.RemoveAll(scratch)
